@@ -25,6 +25,9 @@ def base_models(tmpdir):
     done = F.with_teams({"tasks": [{"name": "T0", "work": 2.0, "progress": 1.0}, {"name": "T1", "work": 1.0, "progress": 1.0}], "links": [[0, 1, "FS"]]}, "POOL1")
     out.append((done, "everything-done-from-the-start"))  # a result of length zero
     out += [(sp, sp["label"]) for sp in F.scale_specs() if sp["label"] in ("scale:8components",)]
+    long_ = F.with_teams({"tasks": [{"name": F.tname(i), "work": 10.0} for i in range(30)], "links": [[i, i + 1, "FS"] for i in range(29)]}, "POOL1")
+    long_["sim_max_time"] = 330
+    out.append((long_, "long-run-300"))  # a result of 300 steps (step numbers beyond the interpreter's cache of small integers)
     # a parent project with a sub-project task (configured from a saved, successfully simulated project)
     sub = F.with_teams({"tasks": [{"name": "T0", "work": 2.0}, {"name": "T1", "work": 1.0}], "links": [[0, 1, "FS"]]}, "POOL1")
     m = S.build(sub)
@@ -50,11 +53,11 @@ def start_project(spec, sim_absence):
     if sim_absence and sim_absence[0] == "resumed":
         # a run stopped at step 2 and continued with state and logs kept
         m.project.simulate(max_time=2, absence_time_list=list(sim_absence[1:]))
-        m.project.simulate(max_time=40, absence_time_list=list(sim_absence[1:]), initialize_state_info=False, initialize_log_info=False)
+        m.project.simulate(max_time=spec.get("sim_max_time", 40), absence_time_list=list(sim_absence[1:]), initialize_state_info=False, initialize_log_info=False)
     elif backward:
-        m.project.backward_simulate(max_time=40, absence_time_list=list(sim_absence))
+        m.project.backward_simulate(max_time=spec.get("sim_max_time", 40), absence_time_list=list(sim_absence))
     else:
-        m.project.simulate(max_time=40, absence_time_list=list(sim_absence))
+        m.project.simulate(max_time=spec.get("sim_max_time", 40), absence_time_list=list(sim_absence))
     return m
 
 
@@ -122,7 +125,7 @@ def apply_and_check(m, op, spec):
     rem_before = {t.ID: list(t.remaining_work_amount_record_list) for t in p.workflow.task_list}
     try:
         if op[0] == "insert":
-            lst = list(op[1])
+            lst = [int(str(x)) for x in op[1]]  # indices as a caller computes them: every entry an int object of its own (equal values are not the same object beyond CPython's small-int cache)
             if len(op) > 2 and op[2] == "np":
                 import numpy
 
@@ -338,7 +341,9 @@ def work(chunk):
                 if len(hist) >= 2:
                     # third level: single indices and 'remove' only (the full alphabet is explored on the first two levels)
                     lists = [L for L in lists if len(L) == 1]
-                for op in [("insert", L) for L in lists] + [("remove",)] + ([("load-free",)] if label != "subproject" and len(hist) < 2 else []):
+                if label.startswith("long-"):
+                    lists = []  # (the 300-step model: every first-level edit, then only its removal)
+                for op in [("insert", L) for L in lists] + [("remove",)] + ([("load-free",)] if label != "subproject" and len(hist) < 2 and not label.startswith("long-") else []):
                     frontier.append(hist + (op,))
                 if len(hist) == 1 and label != "subproject" and (hist[0][0] == "remove" or (hist[0][0] == "insert" and len(hist[0]) == 2 and len(hist[0][1]) == 1)):
                     frontier.append(hist + (("grow",),))  # edit, then the organization grows and the project is simulated afresh, then edit again
@@ -356,6 +361,8 @@ def run(tier, seed):
             for sim_abs in ((), (1,), (0, 2), (1, 30, 31), (1, 3, 1, 40), (2, 2), ("back", 1), ("back", 1, 3, 40, 41), ("resumed",), ("resumed", 3)):
                 if tier == "quick" and label.startswith("scale:") and sim_abs not in ((), (1,), ("back", 1), ("resumed",)):
                     continue  # (the medium-sized model takes four of the ten start states in the quick tier)
+                if label.startswith("long-") and sim_abs not in ((), (1, 30, 31)):
+                    continue
                 items.append((sp, label, sim_abs, depth, tier))
         col = engines.fanout(sorted(items, key=lambda it: 0 if it[1].startswith("scale:") else 1), work, seed=seed, chunks_per_proc=12)
     finally:
